@@ -89,6 +89,13 @@ AUX = [
     ([("config_dmm", "m2", "dmm_0"), ("slm", ["q0"], "dmm_1"), ("declare", "g", "rydberg_global")],
      [("add", A.C52, "g"), ("add_dmm", ["C", 52, -1.5], "dmm_0")]),
     (GLp + [("declare_var", "x", "int"), ("slm", ["q2"])], [("add_v", "x", 52, "g")]),
+    # the same DMM id configured twice (reusable devices), before / after the sequence became parametrized
+    (GLp + [("declare_var", "x", "int"), ("delay_v", "x", "g"), ("config_dmm", "m2", "dmm_0"), ("config_dmm", "m1", "dmm_0")],
+     [("add_dmm", ["C", 52, -1.5], "dmm_0_1"), ("add_dmm", ["C", 100, -0.5], "dmm_0")]),
+    (GLp + [("config_dmm", "m2", "dmm_0"), ("config_dmm", "m1", "dmm_0")],
+     [("add_dmm", ["C", 52, -1.5], "dmm_0_1"), ("add_dmm", ["C", 100, -0.5], "dmm_0"), ("add", A.C52, "g")]),
+    (GLp + [("config_dmm", "m2", "dmm_1"), ("declare_var", "x", "int"), ("delay_v", "x", "g"), ("config_dmm", "m1", "dmm_1")],
+     [("add_dmm", ["C", 52, -1.5], "dmm_1_1"), ("add_v", "x", 52, "g")]),
 ]
 
 
@@ -214,8 +221,8 @@ def run_case(case):
                     if d:
                         out.append((f"C18:strict-switch-changed-the-sequence:{diffkey}:{d}",
                                     f"program {pi} {ops}: {d}"[:300]))
-                if s0.to_build != snapshot.snap(new, True).to_build and pi < 0:
-                    out.append((f"C18:strict-switch-changed-the-stored-calls:{diffkey}", f"program {pi}"))
+                if seq.is_parametrized():
+                    out += _built_differs(seq, new, diffkey, pi)
                 return out + [("@strict-returned", "")]
             # non-strict: every limit of the new device, and a well-formed timeline
             for name, ch in s1.channels.items():
@@ -237,6 +244,18 @@ def run_case(case):
             mx = new.device.max_sequence_duration
             if mx is not None and not new.is_parametrized() and new.get_duration() > mx:
                 out.append((f"C18:non-strict-switch-over-max-duration:{diffkey}", f"program {pi}: {new.get_duration()} > {mx}"))
+            if dst == ("renamed",) and not src:
+                # identical device: nothing may change, strict or not
+                s0n = snapshot.snap(seq, False)
+                for sx in (s0n, s1):
+                    sx.flags["slm_dmm"] = sx.flags["maxdur"] = None
+                    for c in sx.channels.values():
+                        if c.is_dmm:
+                            c.name = c.ch_id = "dmm"
+                if s0n.key(ordered_channels=False) != s1.key(ordered_channels=False):
+                    out.append((f"C18:switch-to-identical-device-changed-the-sequence:{_diff(s0n, s1)}", f"program {pi}"))
+                if seq.is_parametrized():
+                    out += _built_differs(seq, new, "renamed", pi)
             return out + [("@loose-returned", "")]
         # switch_register
         _, pi, kind = case
@@ -272,6 +291,28 @@ def run_case(case):
         if s0.key() != s1.key():
             return [(f"C18:switch-register-changed-the-sequence:{kind}:{_diff(s0, s1)}", f"program {pi} {ops}"[:250])]
         return [("@register-switched", "")]
+
+
+def _built_differs(seq, new, diffkey, pi):
+    """Parametrized program: both sequences built with the same values must have the same timeline (DMM names normalised)."""
+    vals = {n: [60] * v.size for n, v in seq.declared_variables.items()}
+    try:
+        b0 = seq.build(**vals)
+    except Exception:
+        return []
+    try:
+        b1 = new.build(**vals)
+    except Exception as e:
+        return [(f"C18:switched-sequence-does-not-build:{diffkey}:{type(e).__name__}", f"program {pi}: {e}"[:250])]
+    k0, k1 = snapshot.snap(b0, False), snapshot.snap(b1, False)
+    for sx in (k0, k1):
+        sx.flags["slm_dmm"] = sx.flags["maxdur"] = None
+        for c in sx.channels.values():
+            if c.is_dmm:
+                c.name = c.ch_id = "dmm"
+    if k0.key(ordered_channels=False) != k1.key(ordered_channels=False):
+        return [(f"C18:strict-switch-changed-the-built-sequence:{diffkey}:{_diff(k0, k1)}", f"program {pi}")]
+    return []
 
 
 def switch_to_mappable(seq, w, coords, pi, ops):
